@@ -381,6 +381,21 @@ class StmtMixin:
         else:
             src = self.ev(st.iter, path)
         src = self.iterable(src, path)
+        if isinstance(src, VPy):
+            # opaque iterable: the body is run once for an arbitrary element; it must not touch the heap or leave the loop
+            sub = path.copy()
+            sub.env = dict(path.env)
+            self.bind_target(st.target, VPy(self.ctx.fresh('elem', self.ctx.sorts.PyVal)), sub)
+            heap_before = dict(sub.heap)
+            self.ctx.generic_depth += 1
+            try:
+                ends = self.exec_block(st.body, sub)
+            finally:
+                self.ctx.generic_depth -= 1
+            for p in ends:
+                if p.done or p.exc is not None or p.heap != heap_before:
+                    raise OutOfReach(f'loop over a library iterable at line {st.lineno} with effects')
+            return [path]
         if self.is_concrete_iter(src):
             live = [path]
             done = []
@@ -459,6 +474,9 @@ class StmtMixin:
         inv = self.loop_invariant(st)
         if inv is not None:
             return self.invariant_for(st, src, path, inv)
+        mw = self.map_write_loop(st, src, path)
+        if mw is not None:
+            return mw
         accs, others, reads = self.accumulators(st.body, path.env)
         if accs & reads:
             raise OutOfReach(f'loop at line {st.lineno}: accumulator read inside the loop body needs an invariant')
@@ -558,6 +576,42 @@ class StmtMixin:
             if o not in accs:
                 # loop target / temporaries of the body: reading them after the loop is not supported
                 path.env[o] = LoopTemp(o, st.lineno)
+        return [path]
+
+    def map_write_loop(self, st, src, path):
+        """`for x in xs: x.f = v` with v independent of the iteration: a quantified update of the field map"""
+        ctx = self.ctx
+        body = [b for b in st.body if not (isinstance(b, ast.Expr) and isinstance(b.value, ast.Constant))]
+        if len(body) != 1 or not isinstance(body[0], ast.Assign) or len(body[0].targets) != 1 or not isinstance(st.target, ast.Name):
+            return None
+        tgt = body[0].targets[0]
+        if not (isinstance(tgt, ast.Attribute) and isinstance(tgt.value, ast.Name) and tgt.value.id == st.target.id):
+            return None
+        if any(isinstance(n, ast.Name) and n.id == st.target.id for n in ast.walk(body[0].value)):
+            return None
+        ek = self.elem_kind(src)
+        if ek is None or ek[0] != 'ref':
+            return None
+        cls, fld = ek[1], tgt.attr
+        fk = ctx.field_kind(cls, fld)
+        if fk is None or fk[0] == 'listfield':
+            return None
+        v = self.coerce(self.ev(body[0].value, path), fk)
+        i, n, guard, sub, el = self.generic_iter(src, path)
+        ctx.oblige(sub, 'defined', f'store to .{fld} on None', el.t != ctx.sorts.null(cls), st.lineno)
+        con = ctx.cur_contract
+        if not (con is not None and (f'{cls}.{fld}' in con.modifies or '*' in con.modifies)):
+            ctx.oblige(sub, 'frame', f'store to {cls}.{fld} outside modifies', z3.BoolVal(False), st.lineno)
+        elems = [self.at(src, i, path).t]      # evaluated in the pre-loop heap
+        old, new = ctx.new_heap_version(path, cls, fld)
+        x = z3.Const('x!', old.domain(0))
+        j = z3.Int('j!w')
+        elem_j = z3.substitute(elems[0], (i, j))
+        path.assume(z3.ForAll([j], z3.Implies(z3.And(0 <= j, j < n), new(elem_j) == v.t), patterns=[new(elem_j)]))
+        member = z3.Exists([j], z3.And(0 <= j, j < n, x == elem_j))
+        path.assume(z3.ForAll([x], z3.Implies(z3.Not(member), new(x) == old(x)), patterns=[new(x)]))
+        self.writes.append((cls, fld, st.lineno))
+        path.env[st.target.id] = LoopTemp(st.target.id, st.lineno)
         return [path]
 
     def loop_invariant(self, st):
